@@ -178,13 +178,13 @@ func tokens() []token {
 	ts = append(ts,
 		objTok(`c3"One"1{s1"a"}o0{5}`, "One", "a", iD(5)),
 		objTok(`c3"One"1{s1"a"}o0{i300;}`, "One", "a", iD(300)),
-		objTok(`c3"One"2{s1"a"s5"extra"}o0{5s1"x"}`, "One", "a", iD(5), "extra", sD("x")),       // extra field
-		objTok(`c3"One"{}o0{}`, "One"),                                                              // missing field
-		objTok(`c5"Inner"2{s2"iB"s2"iA"}o0{s2"bb"7}`, "Inner", "iB", sD("bb"), "iA", iD(7)),        // reordered
+		objTok(`c3"One"2{s1"a"s5"extra"}o0{5s1"x"}`, "One", "a", iD(5), "extra", sD("x")),   // extra field
+		objTok(`c3"One"{}o0{}`, "One"),                                                      // missing field
+		objTok(`c5"Inner"2{s2"iB"s2"iA"}o0{s2"bb"7}`, "Inner", "iB", sD("bb"), "iA", iD(7)), // reordered
 		objTok(`c5"Inner"2{s2"iA"s2"iB"}o0{7s2"bb"}`, "Inner", "iA", iD(7), "iB", sD("bb")),
-		objTok(`c7"Nowhere"1{s1"a"}o0{5}`, "Nowhere", "a", iD(5)),                                   // class unknown to the receiver
-		mapTok(`m1{s1"a"5}`, sD("a"), iD(5)),                                                        // map standing in for object One
-		mapTok(`m2{s2"iA"7s2"iB"s2"bb"}`, sD("iA"), iD(7), sD("iB"), sD("bb")),                     // map standing in for Inner
+		objTok(`c7"Nowhere"1{s1"a"}o0{5}`, "Nowhere", "a", iD(5)),              // class unknown to the receiver
+		mapTok(`m1{s1"a"5}`, sD("a"), iD(5)),                                   // map standing in for object One
+		mapTok(`m2{s2"iA"7s2"iB"s2"bb"}`, sD("iA"), iD(7), sD("iB"), sD("bb")), // map standing in for Inner
 	)
 	// references to strings / bytes / lists inside a list (reference mode only)
 	ts = append(ts,
